@@ -358,6 +358,12 @@ func (e *Engine) evalInstr(fr *frame, in ssa.Value) Value {
 		case *ArrayV:
 			i := e.concreteIndex(e.eval(fr, x.Index).(*Term), len(c.elems))
 			return c.elems[i]
+		case StrV:
+			i := e.idx64(e.eval(fr, x.Index).(*Term), x.Index.Type())
+			if !e.branch(e.tt.Cmp("bvult", i, e.ropeLen(c.r))) {
+				e.goPanic("runtime error: index out of range (string)")
+			}
+			return e.ropeIndex(c.r, i)
 		}
 		e.unsupported("Index on non-array")
 	case *ssa.IndexAddr:
